@@ -153,6 +153,20 @@ def ops_for(hub, U, letters, rng, regime, tier):
                 t.copy()[key] = src
             except Exception:
                 pass
+    # keys that must be refused (unknown items, an item that two dimensions share, ...): refused in every storage order
+    idrv.do_errors(hub, U, full, rng)
+    shared = fd.Dimension(letter="y", name="cohort", items=list(U[full[0]].items)[:1] + ["c-1990", "c-2000"])
+    both = fd.FlodymArray(dims=fd.DimensionSet(dim_list=[U[full[0]], shared, U[full[1]]]), values=gen.values_one("dyadic", rng, (len(U[full[0]].items), 3, len(U[full[1]].items))))
+    it_shared, it_other = U[full[0]].items[0], U[full[1]].items[-1]
+    for key in ((it_shared, it_other), (it_other, it_shared), (it_shared,), ("c-1990", it_shared), (U[full[0]].items[-1], "c-2000") if len(U[full[0]].items) > 1 else ("c-2000",)):
+        try:
+            both[key]
+        except Exception:
+            pass
+        try:
+            both.copy()[key] = 4.5
+        except Exception:
+            pass
     # split / stack
     for l in full[:2]:
         try:
